@@ -2063,5 +2063,116 @@ theorem refScan_eq_scanStrict (mem : Mem) : ∀ (fuel str : Nat) (len : Option N
             rw [← i1, ← i2]
             simp
 
+
+/-! ### the oracle's input: the effective bytes of a buffer -/
+
+theorem takeWhile_nz_spec : ∀ (l : List Nat),
+    (∀ i, i < (l.takeWhile (· != 0)).length →
+      (l.takeWhile (· != 0)).getD i 0 = l.getD i 0 ∧ l.getD i 0 ≠ 0) ∧
+    (l.any (· == 0) = true → (l.takeWhile (· != 0)).length < l.length ∧
+      l.getD (l.takeWhile (· != 0)).length 0 = 0) ∧
+    (l.any (· == 0) = false → l.takeWhile (· != 0) = l) := by
+  intro l
+  induction l with
+  | nil => simp
+  | cons x xs ih =>
+    obtain ⟨ih1, ih2, ih3⟩ := ih
+    by_cases hx : x = 0
+    · subst hx
+      simp
+    · have hx' : (x != 0) = true := by simpa using hx
+      have hx'' : (x == 0) = false := by simpa using hx
+      simp only [List.takeWhile_cons, hx', if_true, List.length_cons, List.any_cons, hx'', Bool.false_or]
+      refine ⟨?_, ?_, ?_⟩
+      · intro i hi
+        cases i with
+        | zero => simpa using hx
+        | succ j => simpa using ih1 j (by omega)
+      · intro h
+        obtain ⟨a, b⟩ := ih2 h
+        exact ⟨by omega, by simpa using b⟩
+      · intro h; rw [ih3 h]
+
+theorem bytes_getD (a : Array UInt8) (start i : Nat) :
+    ((a.toList.map (·.toNat)).drop start).getD i 0 = (memOfArray a (start + i)).toNat := by
+  unfold memOfArray
+  rw [List.getD_eq_getElem?_getD, List.getElem?_drop, List.getElem?_map]
+  by_cases h : start + i < a.size
+  · simp [h, Array.getD]
+  · simp [h, Array.getD]
+
+theorem effectiveOf_sound (a : Array UInt8) (len : Option Nat) (start : Nat) (bs : List Nat)
+    (h : effectiveOf a len start = some bs) :
+    Effective (memOfArray a) start (lenSub len start) bs := by
+  unfold effectiveOf at h
+  generalize hb0 : (a.toList.map (·.toNat)).drop start = bs0 at h
+  have hget : ∀ i, bs0.getD i 0 = (memOfArray a (start + i)).toNat := by
+    intro i; rw [← hb0]; exact bytes_getD a start i
+  cases len with
+  | none =>
+    simp only at h
+    split at h
+    · rename_i hc
+      injection h with h
+      subst h
+      obtain ⟨t1, t2, _⟩ := takeWhile_nz_spec bs0
+      refine ⟨?_, Or.inr ⟨?_, fun l hl => by simp [lenSub] at hl⟩⟩
+      · intro i hi
+        obtain ⟨e1, e2⟩ := t1 i hi
+        rw [e1, hget i] at *
+        exact ⟨rfl, e2⟩
+      · obtain ⟨_, z⟩ := t2 hc.2
+        rw [← hget]; exact z
+    · cases h
+  | some l =>
+    simp only at h
+    split at h
+    · cases h
+    · rename_i hsl
+      have hsl' : start ≤ l := by omega
+      have hls : lenSub (some l) start = some (l - start) := by simp [lenSub, hsl']
+      rw [hls]
+      have hwin : ∀ i, i < (bs0.take (l - start)).length → (bs0.take (l - start)).getD i 0 = bs0.getD i 0 := by
+        intro i hi
+        simp only [List.length_take] at hi
+        rw [List.getD_eq_getElem?_getD, List.getElem?_take, if_pos (by omega), ← List.getD_eq_getElem?_getD]
+      split at h
+      · rename_i hany
+        injection h with h
+        subst h
+        obtain ⟨t1, t2, _⟩ := takeWhile_nz_spec (bs0.take (l - start))
+        obtain ⟨z1, z2⟩ := t2 hany
+        refine ⟨?_, Or.inr ⟨?_, ?_⟩⟩
+        · intro i hi
+          obtain ⟨e1, e2⟩ := t1 i hi
+          rw [hwin i (by omega)] at e1 e2
+          rw [e1, hget i] at *
+          exact ⟨rfl, e2⟩
+        · rw [hwin _ z1, hget] at z2; exact z2
+        · intro l' hl'
+          injection hl' with hl'
+          subst hl'
+          have : (bs0.take (l - start)).length ≤ l - start := by simp [List.length_take]; omega
+          omega
+      · rename_i hnone
+        split at h
+        · rename_i hla
+          injection h with h
+          subst h
+          have hany : (bs0.take (l - start)).any (· == 0) = false := Bool.eq_false_iff.mpr hnone
+          obtain ⟨t1, _, t3⟩ := takeWhile_nz_spec (bs0.take (l - start))
+          have hlen : (bs0.take (l - start)).length = l - start := by
+            rw [List.length_take, ← hb0]
+            simp only [List.length_drop, List.length_map, Array.length_toList]
+            omega
+          refine ⟨?_, Or.inl (by rw [hlen])⟩
+          intro i hi
+          rw [t3 hany] at t1
+          obtain ⟨_, e2⟩ := t1 i hi
+          rw [hwin i hi] at e2 ⊢
+          rw [hget i] at *
+          exact ⟨rfl, e2⟩
+        · cases h
+
 end Utf8
 end Tickit
